@@ -31,6 +31,8 @@ EXPLANATION = (
     'parentheses/commas).')
 EXPLANATION_ADDED = (" (R8, which replaces the structural R1/R2/R5) the raw parser is partially evaluated on about 45 probe documents: frame persistence and requirement, every unsupported frame/shape keyword, include sign, global/own metadata precedence, composite metadata, comment lines (a comment runs to the end of the line, semicolons included), letter case and separators; (R4 also) ellipse/box without the optional angle; the coordinate lexer is told each token's own parameter index; (R3 also) the dispatcher in front of the lexers is probed; (R7) shape lines are split into parameter and metadata strings on probe lines.")
 EXPLANATION += EXPLANATION_ADDED
+EXPLANATION_ADDED2 = (" (R3b) the size and angle lexers are probed once per dispatch branch and per number ending. (R9, deep tier) grammar enumeration: every document of at most three lines over a 16-line DS9 grammar (frame lines, global lines, shape lines with and without sign/metadata, composite headers and members, comments, unsupported keywords: 7324 documents) is pushed through the partially evaluated raw parser and compared with a state-machine oracle written from the property's statement (current frame, global metadata, composite state, include sign).")
+EXPLANATION += EXPLANATION_ADDED2
 TRUSTED = ['astropy Angle(str, unit) / Quantity(float, unit) parse as documented', 'str.split/strip/lower']
 ASSUMPTIONS = ['lines reach the raw parser one statement at a time (splitting is not decided)']
 
